@@ -39,12 +39,31 @@ func (r *resV) ids() []string {
 	return out
 }
 
+// searchReused runs one request object on first and then on second and returns the second result.
+func searchReused(first, second bleve.Index, rs *reqSpec, p pageSpec, keys []string) *resV {
+	var req *bleve.SearchRequest
+	ok := true
+	panicked, _, _ := ev.Guard(func() {
+		req = rs.build(p, keys)
+		if _, err := first.Search(req); err != nil {
+			ok = false
+		}
+	})
+	if panicked || !ok {
+		return nil
+	}
+	return doSearchReq(second, req)
+}
+
 func doSearch(idx bleve.Index, rs *reqSpec, p pageSpec, keys []string) *resV {
+	return doSearchReq(idx, rs.build(p, keys))
+}
+
+func doSearchReq(idx bleve.Index, req *bleve.SearchRequest) *resV {
 	out := &resV{}
 	var res *bleve.SearchResult
 	var err error
 	panicked, val, stack := ev.Guard(func() {
-		req := rs.build(p, keys)
 		res, err = idx.Search(req)
 	})
 	if panicked {
@@ -244,6 +263,16 @@ func (w *world) runPage(rs *reqSpec, p pageSpec, anchor *hitV) *outcome {
 	o.ref = doSearch(w.ref, rs, p, keys)
 	o.al = doSearch(w.alias, rs, p, keys)
 	o.fail, o.bothErr = compare(rs, o.ref, o.al)
+	if o.fail == nil && !o.bothErr {
+		// the same request OBJECT used on the single index first and on the alias
+		// afterwards ("any request": a request value may be used more than once)
+		if al2 := searchReused(w.ref, w.alias, rs, p, keys); al2 != nil {
+			if f, _ := compare(rs, o.ref, al2); f != nil {
+				f.Kind = "request-reused/" + f.Kind
+				o.fail, o.al = f, al2
+			}
+		}
+	}
 	o.contrib = w.contributing(o.al)
 	if c := w.contributing(o.ref); c > o.contrib {
 		o.contrib = c
